@@ -15,3 +15,5 @@ for p in "$@"; do
 done
 cd /repo && git reset -q --hard HEAD && git status --porcelain --untracked-files=no
 rm -rf /verif/replays
+# leave a harness binary built from the restored tree behind
+(cd /verif/sim && cargo build --release --offline -q 2>/dev/null)
